@@ -44,6 +44,12 @@ check("C08",
       "TLA+ spec (QTomo over exact rationals) model-checked with TLC; replay of TLC-emitted configurations and exact (A, b) into the implementation",
       "DESIGN.md §4 C08")
 
+check("C09",
+      "TLC (MC_C09) computes per configuration the exact model, its rank over two prime fields and datasets with the estimate the specification expects: exact data of arbitrary variable vectors and of the physical catalogue, certificate data (exact data plus a null vector of A^T that TLC verifies), and for models up to 8 variables count-like / non-normalised data solved by exact rational Gauss-Jordan elimination; invariants: the expected estimate satisfies the normal equations exactly (residual orthogonal to the model), exact data are inverted, complete tester sets give full rank and deficient ones do not. Binding: LinearEstimator on the concretised testers must return those estimates (estimated_var, estimated_qoperation), sequence = single, independence of attached sample counts, refusal of rank-deficient sets, calc_mse_of_true_estimated = 0 on the catalogue.",
+      "Trusted: QTomo model (bound to the library by C08), modular rank, tolerance 1e-8 relative on estimates.",
+      "TLA+ spec (QTomo + exact rational least squares) model-checked with TLC; replay of TLC-emitted datasets and exact estimates into the implementation",
+      "DESIGN.md §4 C09")
+
 ALL = ["C%02d" % i for i in range(1, 21)]
 
 def main():
